@@ -259,4 +259,37 @@ MUTANTS = [
       """            match unify_rec(state, extension, utail, vtail) {
                 Ok(state) => unify_rec(state, extension, uhead, vhead),""",
       silent=True),
+    M("c02-f1-returns", ["C02"], "src/state/constraint/store.rs",
+      "                    if !tree_newc.subsumes(tree_storec) {",
+      "                    if !tree_storec.subsumes(tree_newc) && !tree_newc.subsumes(tree_storec) {",
+      {"C02": "weakens-store"}),
+    M("c02-new-never-inserted-when-any", ["C02"], "src/state/constraint/store.rs",
+      "                    .map_or(false, |tree_storec| tree_storec.subsumes(tree_newc))",
+      "                    .map_or(false, |tree_storec| tree_newc.subsumes(tree_storec))",
+      {"C02": "new-left-out"}),
+    M("c02-disunify-returns-unified", ["C02"], "src/state/mod.rs",
+      """            Ok(_) => {
+                if extension.is_empty() {""",
+      """            Ok(unified) => {
+                let _ = &unified;
+                if extension.is_empty() {""",
+      {"C02": "disunify"}, more=[("src/state/mod.rs", "                    Ok(self.with_constraint(c))", "                    Ok(unified.with_constraint(c))")]),
+    M("c02-run-returns-test-state", ["C02"], "src/relation/diseq.rs",
+      "            Ok(state.with_constraint(c))\n        }\n    }\n\n    fn operands",
+      "            Ok(test_state.with_constraint(c))\n        }\n    }\n\n    fn operands",
+      {"C02": "constraint-run"}),
+    M("c02-subsumes-direction", ["C02"], "src/relation/diseq.rs",
+      """                let mut state = State::new(Default::default()).with_smap(other.smap_ref().clone());
+                for (u, v) in self.0.iter() {""",
+      """                let mut state = State::new(Default::default()).with_smap(self.smap_ref().clone());
+                for (u, v) in other.0.iter() {""",
+      {"C02": "subsumes"}),
+    M("c02-empty-ext-swapped", ["C02"], "src/state/mod.rs",
+      "                if extension.is_empty() {\n                    // Unification succeeded without extending",
+      "                if !extension.is_empty() {\n                    // Unification succeeded without extending",
+      {"C02": "disunify"}),
+    M("c02-run-entailed-fails", ["C02"], "src/relation/diseq.rs",
+      "                Err(_) => return Ok(state),\n                Ok(new_state) => test_state = new_state,",
+      "                Err(_) => return Err(()),\n                Ok(new_state) => test_state = new_state,",
+      {"C02": "entailed"}),
 ]
